@@ -3,10 +3,13 @@ package props
 import (
 	"fmt"
 	"os"
+	"path/filepath"
 	"regexp"
 	"sort"
 	"strconv"
 	"strings"
+
+	"gopkg.in/yaml.v3"
 
 	"verifharness/internal/gen"
 	"verifharness/internal/impl"
@@ -96,13 +99,8 @@ type c08Result struct {
 	specOK  bool
 	linkRep string
 	sigs    map[string]string // signature → description
+	verdict map[string]bool   // signatures that come from a disagreement of the VERDICT (part (a))
 }
-
-var bigIntMsg = regexp.MustCompile(`^(Float cannot represent non numeric value|ID cannot represent a non-string and non-integer value): -?\d{19,}$`)
-// the use of a variable whose DEFAULT is such a literal is reported as well (Value.Value follows the default)
-var bigIntViaVariable = regexp.MustCompile(`^(Float cannot represent non numeric value|ID cannot represent a non-string and non-integer value): \$[_0-9A-Za-z]+$`)
-var nineteenDigits = regexp.MustCompile(`\d{19,}`)
-var structuredMsg = regexp.MustCompile(`^Expected value of type ".*", found [\{\[]`)
 
 func c08ClassesAccept(pred string, r *c08Result) []string {
 	switch pred {
@@ -125,6 +123,10 @@ func c08ClassesAccept(pred string, r *c08Result) []string {
 		}
 		sort.Strings(out)
 		return uniqStrings(out)
+	case "fieldSelectionMerging":
+		if r.diag["diag.listNullabilityDiffers"] {
+			return []string{"list-nullability-ignored-in-response-shape"}
+		}
 	case "allVariableUsesDefined", "allVariableUsagesAllowed":
 		if r.diag["diag.varInFragmentDefinitionDirective"] {
 			return []string{"variable-in-fragment-definition-directive"}
@@ -136,21 +138,20 @@ func c08ClassesAccept(pred string, r *c08Result) []string {
 func c08ClassesReject(rule string, r *c08Result) []string {
 	switch rule {
 	case "ValuesOfCorrectType":
+		// The spec accepts every typed literal of the document, so each report of the rule is
+		// spurious; the document is named after the known causes it contains (Value.Value fails on
+		// the literal, on a list/object around it, or on a variable whose default contains it).
 		var out []string
-		for _, m := range r.goRules[rule] {
-			switch {
-			case (bigIntMsg.MatchString(m) || bigIntViaVariable.MatchString(m)) && r.diag["diag.bigIntForFloatOrID"]:
-				out = append(out, "big-int-literal-for-float-or-id")
-			case structuredMsg.MatchString(m) && r.diag["diag.bigIntForFloatOrID"] && nineteenDigits.MatchString(m):
-				out = append(out, "big-int-literal-for-float-or-id")
-			case structuredMsg.MatchString(m) && r.diag["diag.hugeCustomUnderObject"]:
-				out = append(out, "custom-scalar-literal-nested-in-input-object")
-			default:
-				out = append(out, "other")
-			}
+		if r.diag["diag.bigIntForFloatOrID"] {
+			out = append(out, "big-int-literal-for-float-or-id")
 		}
-		sort.Strings(out)
-		return uniqStrings(out)
+		if r.diag["diag.hugeCustomUnderObject"] {
+			out = append(out, "custom-scalar-literal-nested-in-input-object")
+		}
+		if len(out) == 0 {
+			out = []string{"other"}
+		}
+		return out
 	case "VariablesInAllowedPosition":
 		if r.diag["diag.locationDefaultNeeded"] {
 			return []string{"location-default-value-ignored"}
@@ -158,6 +159,10 @@ func c08ClassesReject(rule string, r *c08Result) []string {
 	case "NoUnusedVariables":
 		if r.diag["diag.varInFragmentDefinitionDirective"] {
 			return []string{"variable-in-fragment-definition-directive"}
+		}
+	case "SingleFieldSubscriptions":
+		if r.diag["diag.inapplicableRootFragment"] {
+			return []string{"root-field-under-inapplicable-type-condition"}
 		}
 	}
 	return []string{"other"}
@@ -183,6 +188,7 @@ func specPredName(p string) string {
 // judge derives the signatures of one pair from the Go observation and the spec reply.
 func (r *c08Result) judge() {
 	r.sigs = map[string]string{}
+	r.verdict = map[string]bool{}
 	if strings.HasPrefix(r.goObs, "PANIC,") {
 		r.sigs["validator-panics"] = "the real validator panicked: " + readable(r.goObs)
 		return
@@ -209,6 +215,7 @@ func (r *c08Result) judge() {
 		for _, p := range falsePreds {
 			for _, cl := range c08ClassesAccept(p, r) {
 				add("validator-accepts-spec-rejects:"+p+":"+cl, "validation returns no error but the specification predicate "+p+" is false")
+				r.verdict["validator-accepts-spec-rejects:"+p+":"+cl] = true
 			}
 		}
 	}
@@ -216,6 +223,7 @@ func (r *c08Result) judge() {
 		for _, g := range fired {
 			for _, cl := range c08ClassesReject(g, r) {
 				add("validator-rejects-spec-accepts:"+g+":"+cl, "every specification predicate holds but rule "+g+" reports: "+strings.Join(r.goRules[g], " | "))
+				r.verdict["validator-rejects-spec-accepts:"+g+":"+cl] = true
 			}
 		}
 	}
@@ -262,6 +270,7 @@ func (r *c08Result) judge() {
 			if f[0] == "MISSING" {
 				kind = "link-missing"
 			}
+			r.verdict[kind+":"+f[1]+":"+f[2]] = true
 			add(kind+":"+f[1]+":"+f[2], fmt.Sprintf("node %s@%s: link %s should be %s, the validated document has %s", f[1], f[3], f[2], f[4], strings.Join(f[5:], ",")))
 		}
 	}
@@ -351,6 +360,7 @@ func (c *Ctx) c08Judge(pairs [][2]string) []*c08Result {
 type c08Found struct {
 	schema, doc, what, origin string
 	n                         int
+	verdict                   bool // the kept case is a disagreement of the verdict, not only of one rule
 }
 
 type c08Run struct {
@@ -410,12 +420,14 @@ func (run *c08Run) batch(pairs [][2]string, origin string) {
 		for sig, what := range r.sigs {
 			f := run.found[sig]
 			size := len(pairs[i][1])*4 + len(pairs[i][0])
+			v := r.verdict[sig]
 			if f == nil {
-				run.found[sig] = &c08Found{schema: pairs[i][0], doc: pairs[i][1], what: what, origin: origin, n: 1}
+				run.found[sig] = &c08Found{schema: pairs[i][0], doc: pairs[i][1], what: what, origin: origin, n: 1, verdict: v}
 			} else {
 				f.n++
-				if size < len(f.doc)*4+len(f.schema) {
-					f.schema, f.doc, f.what, f.origin = pairs[i][0], pairs[i][1], what, origin
+				// a disagreement of the verdict beats one of a single rule; then the smaller input
+				if (v && !f.verdict) || (v == f.verdict && size < len(f.doc)*4+len(f.schema)) {
+					f.schema, f.doc, f.what, f.origin, f.verdict = pairs[i][0], pairs[i][1], what, origin, v
 				}
 			}
 		}
@@ -492,6 +504,8 @@ func c08Spans(toks []string) [][2]int {
 			continue
 		}
 		add(i, i+1)
+		add(i, i+2)
+		add(i, i+3)
 		// name (args)? directives? {sel}?
 		j := i + 1
 		for j < len(toks) && (isOpen(toks[j]) || strings.HasPrefix(toks[j], "@")) {
@@ -524,19 +538,19 @@ func c08Spans(toks []string) [][2]int {
 	return out
 }
 
-func (run *c08Run) hasSig(res *c08Result, sig string) bool {
+func (run *c08Run) hasSig(res *c08Result, sig string, verdict bool) bool {
 	if res == nil || res.skipped != "" {
 		return false
 	}
 	_, ok := res.sigs[sig]
-	return ok
+	return ok && (!verdict || res.verdict[sig])
 }
 
 // shrink minimises the document (token spans) and then the schema (definitions, lines).
 func (run *c08Run) shrink(sig string, f *c08Found) {
 	budget := 40
 	toks := c08Tokens(f.doc)
-	if chk := run.c.c08Judge([][2]string{{f.schema, c08Join(toks)}}); !run.hasSig(chk[0], sig) {
+	if chk := run.c.c08Judge([][2]string{{f.schema, c08Join(toks)}}); !run.hasSig(chk[0], sig, f.verdict) {
 		toks = nil // the re-tokenised text does not reproduce (should not happen): keep the original
 	}
 	for toks != nil && budget > 0 {
@@ -554,7 +568,7 @@ func (run *c08Run) shrink(sig string, f *c08Found) {
 		res := run.c.c08Judge(cands)
 		hit := -1
 		for i := range res {
-			if run.hasSig(res[i], sig) {
+			if run.hasSig(res[i], sig, f.verdict) {
 				hit = i
 				break
 			}
@@ -588,7 +602,7 @@ func (run *c08Run) shrink(sig string, f *c08Found) {
 			// drop as many units as possible in one go: greedily retry the accumulated removal
 			var ok []int
 			for i := range res {
-				if run.hasSig(res[i], sig) {
+				if run.hasSig(res[i], sig, f.verdict) {
 					ok = append(ok, i)
 				}
 			}
@@ -606,7 +620,7 @@ func (run *c08Run) shrink(sig string, f *c08Found) {
 					}
 				}
 				try := strings.Join(rest, sep)
-				if r := run.c.c08Judge([][2]string{{try, f.doc}}); run.hasSig(r[0], sig) {
+				if r := run.c.c08Judge([][2]string{{try, f.doc}}); run.hasSig(r[0], sig, f.verdict) {
 					cur = try
 					f.what = r[0].sigs[sig]
 				} else {
@@ -621,6 +635,42 @@ func (run *c08Run) shrink(sig string, f *c08Found) {
 			}
 			f.schema = cur
 		}
+	}
+	run.shrinkSchemaTokens(sig, f)
+}
+
+// shrinkSchemaTokens removes bracket-balanced token spans from the SDL (fields, arguments,
+// directive applications, descriptions) as long as the signature stays.
+func (run *c08Run) shrinkSchemaTokens(sig string, f *c08Found) {
+	toks := c08Tokens(f.schema)
+	if chk := run.c.c08Judge([][2]string{{c08Join(toks), f.doc}}); !run.hasSig(chk[0], sig, f.verdict) {
+		return
+	}
+	for budget := 60; budget > 0; budget-- {
+		spans := c08Spans(toks)
+		sort.Slice(spans, func(i, j int) bool { return spans[i][1]-spans[i][0] > spans[j][1]-spans[j][0] })
+		if len(spans) > 600 {
+			spans = spans[:600]
+		}
+		cands := make([][2]string, len(spans))
+		for i, sp := range spans {
+			t := append(append([]string{}, toks[:sp[0]]...), toks[sp[1]:]...)
+			cands[i] = [2]string{c08Join(t), f.doc}
+		}
+		res := run.c.c08Judge(cands)
+		hit := -1
+		for i := range res {
+			if run.hasSig(res[i], sig, f.verdict) {
+				hit = i
+				break
+			}
+		}
+		if hit < 0 {
+			break
+		}
+		toks = append(append([]string{}, toks[:spans[hit][0]]...), toks[spans[hit][1]:]...)
+		f.schema = c08Join(toks)
+		f.what = res[hit].sigs[sig]
 	}
 }
 
@@ -659,14 +709,164 @@ func splitDefinitions(sdl string) []string {
 	return out
 }
 
+// ---------- the specification against graphql-js's own expectations ----------
+
+type importedExpect struct {
+	Name   string `yaml:"name"`
+	Rule   string `yaml:"rule"`
+	Schema string `yaml:"schema"`
+	Query  string `yaml:"query"`
+	Errors []struct {
+		Message string `yaml:"message"`
+	} `yaml:"errors"`
+}
+
+// graphql-js cases whose expectation depends on something this library does not have
+var graphqlJSEnvironment = map[string]string{
+	"references to standard scalars that are missing in schema":                         "graphql-js can build a schema without the standard scalars; the library's prelude always defines them",
+	"Invalid input object value/reports error for custom scalar that returns undefined": "graphql-js calls the custom scalar's parseLiteral; in C08 custom scalars accept any literal",
+}
+
+// specVsGraphqlJS: every imported graphql-js test case names one rule and lists the errors that
+// rule must give. The spec predicates that stand for the rule must be false exactly when errors
+// are expected. This judges the SPEC (not the validator): a disagreement is a bug of the spec or
+// one of the documented reading choices.
+func (run *c08Run) specVsGraphqlJS() {
+	c := run.c
+	b, err := os.ReadFile(filepath.Join(RepoDir, "validator/imported/spec/schemas.yml"))
+	if err != nil {
+		c.ReportNoInput("spec", "imported-cases-missing", err.Error(), nil)
+		return
+	}
+	var schemas []string
+	yaml.Unmarshal(b, &schemas)
+	files, _ := filepath.Glob(filepath.Join(RepoDir, "validator/imported/spec/*.spec.yml"))
+	sort.Strings(files)
+	byRule := map[string]c08Rule{}
+	for _, cr := range c08Rules {
+		byRule[cr.rule] = cr
+	}
+	var cases []importedExpect
+	var pairs [][2]string
+	for _, f := range files {
+		fb, _ := os.ReadFile(f)
+		var specs []importedExpect
+		if yaml.Unmarshal(fb, &specs) != nil {
+			continue
+		}
+		for _, sp := range specs {
+			if _, ok := byRule[sp.Rule]; !ok {
+				continue
+			}
+			if idx, err := strconv.Atoi(sp.Schema); err == nil {
+				if idx < 0 || idx >= len(schemas) {
+					continue
+				}
+				sp.Schema = schemas[idx]
+			}
+			cases = append(cases, sp)
+			pairs = append(pairs, [2]string{sp.Schema, sp.Query})
+		}
+	}
+	res := c.c08Judge(pairs)
+	compared, agree, maskedN := 0, 0, 0
+	envDiff := map[string]string{}
+	perRule := map[string]int{}
+	for i, r := range res {
+		if r.skipped != "" {
+			continue
+		}
+		cr := byRule[cases[i].Rule]
+		bad := false
+		for _, p := range cr.preds {
+			if !r.spec[p] {
+				bad = true
+			}
+		}
+		masked := false
+		for _, m := range cr.mask {
+			if !r.spec[m] {
+				masked = true
+			}
+		}
+		if why, ok := graphqlJSEnvironment[cases[i].Name]; ok {
+			envDiff[cases[i].Name] = why
+			continue
+		}
+		if masked {
+			maskedN++
+			continue
+		}
+		compared++
+		perRule[cr.rule]++
+		if bad == (len(cases[i].Errors) > 0) {
+			agree++
+			continue
+		}
+		sig := "spec-vs-graphqljs:" + cr.rule
+		if c.KF.Match(c.Prop, sig) == nil && (c.SigFilter == nil || c.SigFilter(sig)) {
+			fmt.Printf("  spec vs graphql-js: %s / %q: graphql-js expects %d error(s), spec predicates %v false=%v\n", cr.rule, cases[i].Name, len(cases[i].Errors), cr.preds, bad)
+		}
+		c.Report("spec", sig, fmt.Sprintf("graphql-js case %q expects %d error(s) of rule %s, the spec predicates %v say %v\n    schema: %s\n    document: %s", cases[i].Name, len(cases[i].Errors), cr.rule, cr.preds, !bad, trunc(oneLine(cases[i].Schema), 400), oneLine(cases[i].Query)),
+			map[string]any{"op": "c08", "schema": cases[i].Schema, "document": cases[i].Query, "sig": sig})
+	}
+	fmt.Printf("C08: spec predicates vs graphql-js expectations: %d cases compared over %d rules %v, %d agree; %d not compared (rule-level mask), %d set aside (different environment): %v\n", compared, len(perRule), perRule, agree, maskedN, len(envDiff), envDiff)
+	c.Ev.Extra["spec_vs_graphqljs_cases"] = compared
+	c.Ev.Extra["spec_vs_graphqljs_agree"] = agree
+}
+
+// c08Seeds: one hand-written pair per deviation class known from reading the code (DESIGN §7 R8b–R8e
+// and the later findings), so that every class is reached whatever the generators draw; plus the
+// repaired items R8a, R8f, R8g, R8h as regression inputs (both sides must agree on them).
+const c08SeedSchema = `
+schema { query: Q subscription: S }
+directive @rep(x: Int) repeatable on FIELD
+directive @fd(x: Int) on FRAGMENT_DEFINITION
+scalar Any
+enum E { A B }
+input In { a: Any b: Int r: Int! = 5 }
+interface Node { id: ID }
+type Q { f(x: Int, e: E, fl: Float, id: ID, i: In, r: Int! = 5, l: [Int]): Int ab: AB n: Node }
+type S implements Node { id: ID a: Int b: Int }
+type Other implements Node { id: ID o: Int }
+type A { k: Int o: O x: Int }
+type B { k: String o: O x: Int }
+type O { id: ID }
+union AB = A | B
+type LA { data: [Int]! m: [[Int]!] }
+type LB { data: [Int] m: [[Int]] }
+union LU = LA | LB
+extend type Q { lu: LU }
+`
+
+var c08SeedDocs = []string{
+	`{ f(x: {}) }`, `{ f(e: {}) }`, // R8b
+	`{ f(x: 1099511627776) }`, `{ f(x: 2147483648) }`, `{ f(x: -2147483649) }`, `{ f(x: 2147483647) g: f(x: -2147483648) }`, // R8c
+	`{ f(fl: 99999999999999999999) }`, `{ f(id: 99999999999999999999) }`, `{ f(fl: 1e999) }`, // R8d (1e999 is not finite: invalid on both sides)
+	`query($v: Int) { f(r: $v) }`, `query($v: Int) { f(i: {r: $v}) }`, `query($v: Int = 1) { f(r: $v) }`, // R8e
+	`query($v: Int) { f ...F } fragment F on Q @fd(x: $v) { f }`, `query { f ...F } fragment F on Q @fd(x: $u) { f }`, `query($v: Int) { f(x: $v) ...F } fragment F on Q @fd(x: $v) { f }`, // N1
+	`{ f(i: {a: 1e999}) }`, `{ f(i: {a: 99999999999999999999}) }`, `{ f(i: {a: [1e999]}) }`, // N2
+	`subscription { a ... on Node { ... on Other { o } } }`, `subscription { a ...F } fragment F on Node { ... on Other { o } }`, // root field under a type condition that cannot apply
+	`{ lu { ... on LA { data } ... on LB { data } } }`, `{ lu { ... on LA { m } ... on LB { m } } }`, // list nullability in SameResponseShape
+	`{ f @rep(x: 1) @rep(x: 2) }`, `subscription { x: a y: a }`, `{ f(l: [1]) f(l: [2]) }`, `{ f(i: {b: 1}) f(i: {b: 2}) }`, `{ f(i: {b: 1, a: 2}) f(i: {a: 2, b: 1}) }`,
+	`{ ab { ... on A { k: x } ... on B { k: o { id } } } }`, `{ ab { ... on A { k } ... on B { k } } }`, `{ n { ... on S { a } } }`,
+}
+
 // ---------- the sweep ----------
 
 func (run *c08Run) sweep() {
 	c := run.c
 	r := c.R
+	// (0) the spec itself against the expectations recorded with the imported graphql-js cases
+	run.specVsGraphqlJS()
 	// (1) imported graphql-js cases and the hand-written seeds
 	seedPairs, _ := ValidateSeedPairs()
 	run.batch(seedPairs, "imported+seeds")
+	var hand [][2]string
+	for _, d := range c08SeedDocs {
+		hand = append(hand, [2]string{c08SeedSchema, d})
+	}
+	run.batch(hand, "hand-written")
 	for k := 1; k <= 3; k++ {
 		var adv [][2]string
 		for _, a := range gen.Adversarial(k) {
@@ -772,7 +972,11 @@ func (run *c08Run) finish() {
 			run.shrink(sig, f)
 		}
 		kind := "spec"
-		c.Report(kind, sig, fmt.Sprintf("%s (%d cases, first from %s)\n    schema: %s\n    document: %s", f.what, f.n, f.origin, oneLine(f.schema), oneLine(f.doc)),
+		level := "the verdicts differ"
+		if !f.verdict {
+			level = "both sides reject the document, the rule and its predicate differ"
+		}
+		c.Report(kind, sig, fmt.Sprintf("%s [%s] (%d cases, first from %s)\n    schema: %s\n    document: %s", f.what, level, f.n, f.origin, oneLine(f.schema), oneLine(f.doc)),
 			map[string]any{"op": "c08", "schema": f.schema, "document": f.doc, "sig": sig})
 		for i := 1; i < f.n; i++ { // count the remaining cases for KNOWN-FINDING lines
 			if c.KF.Match(c.Prop, sig) == nil {
